@@ -86,6 +86,10 @@ def run(tier):
                            'guards that do not fire) and reverse requires-graphs, run on the real engine under both schedulers and 8 '
                            'schedule policies; joins fed by a 6-task branch that breaks at every distance; non-trivial = distinct runs in which at least one join with >= 2 inbound branches started or failed',
                            _nontrivial, model_runs=lambda d: ec.catalogue_model_runs(d, tier) +
+                           # reverse workflows (ReqGateM: only tasks of the target's closure, only after what they require succeeded), also with
+                           # pause / resume / stop at any two points
+                           ec.catalogue_model_runs(d, tier, shapes=gen.reverse_catalogue(), liveness_for=(), tag='_rev', schedulers=('default', 'legacy')) +
+                           ec.catalogue_model_runs(d, tier, shapes=gen.reverse_catalogue(), ops=2, liveness_for=(), tag='_rev_o2', schedulers=('default',)) +
                            # (two_joins: 18.6 M states under the default scheduler, 5.9 M under the legacy one - thorough tier only)
                            (ec.catalogue_model_runs(d, tier, shapes=gen.wide_shapes()[:1], liveness_for=(), tag='_wide') if tier == 'thorough' else []),
                            strict=True, prescribed=True, post=_statement_level(tier),
